@@ -162,6 +162,32 @@ CLAIMED = {
         "(slack 0.2 s). The correspondence between the timing model and the code is the wall-clock run. No axioms.",
    technique="Coq theorems over a logical-clock model of the wait loops; wall-clock API schedules",
    ref="5 C18"),
+ "C11": dict(
+   text="Coq theorems C11_*: for an installed DES / AES-128 key, the msgData produced by priv_encrypt decrypts - by CBC / CFB decryption with "
+        "the key and the IV that RFC 3414 8.1.1.1 / RFC 3826 3.1 derive from the transmitted salt and boots/time - to exactly the reference "
+        "scoped PDU followed by p < 8 (16) zero octets (C11_des_message, C11_aes_message, C11_plaintext_is_padded_scoped_pdu); the result "
+        "depends only on key, salt counter, PDU, boots and time (C11_history_independent); anything the agent encrypts that way is decrypted "
+        "exactly (C11_*_decrypt_exact, C11_*_round_trip); decrypt never panics (C11_decrypt_total).  Underneath: CBC/CFB inverse laws for any "
+        "block cipher and DES decrypt after encrypt = identity for the Gallina DES (Feistel + FP o IP = id), all closed under the global "
+        "context.  Model.Priv vs PrivKey::{encrypt,decrypt} on histories of interleaved sends / failed and genuine receives (debug+release), "
+        "octet-identical ciphertexts; every ciphertext decrypted by the reference cipher and compared with an independently encoded scoped PDU.",
+   note="Trusted: Coq kernel; the Gallina DES/AES are validated by FIPS 46-3 / FIPS 197 / SP 800-38A vectors in Coq and against the des/aes/cbc/"
+        "cfb-mode crates each run; AES is only used in the forward direction (CFB). The Rust scratch buffer is not part of the model state "
+        "(it is reset before use since the fix: commit); its absence from the state is what the history correspondence checks. No axioms.",
+   technique="Coq proofs of mode inverse laws, DES inverse and the message-level RFC statement; differential histories vs Rust; reference-cipher oracle",
+   ref="5 C11"),
+ "C14": dict(
+   text="Coq theorems C14_*: the i-th encrypt of a key installation carries salt = be32(boots) || be32((s0+i) mod 2^32) for DES and "
+        "be64((s0+i) mod 2^64) for AES (C14_*_salt_sequence), hence any two messages fewer than 2^32 / 2^64 apart carry different salts "
+        "(C14_*_distinct, C14_distinct) for histories of ANY length interleaved with any receives (C14_decrypt_keeps_state, C14_interleaved); "
+        "8 octets (C14_len8); priv flag set (C14_priv_flag); a send changes nothing of the key but the counter (C14_send_advances_only_salt).  "
+        "3000 (thorough: 60000) encrypted requests of real sessions (DES x2, AES) interleaved with receives, timeouts and boots changes: salts "
+        "equal first+i, distinct, flag set, no request OID outside the ciphertext.",
+   note="Trusted: Coq kernel; hand model tied by the API run and by C11's histories. 'Nothing confidential in clear' is proved structurally "
+        "(the scoped PDU enters the message only as ciphertext, the rest is the reference encoding of header/USM fields: C03, C09) and "
+        "searched for at run time. No axioms.",
+   technique="Coq modular-arithmetic proof over encrypt histories of unbounded length; API run reading salts from the wire",
+   ref="5 C14"),
 }
 
 PENDING = "check not built yet in this round (see DESIGN.md section 7 for the order of work)"
